@@ -526,5 +526,47 @@ inline int harnessMain(int argc, char** argv, const char* propertyId) {
 
 }  // namespace vf
 
+// ---------------------------------------------------------------- coverage-guided front end (libFuzzer drives the choice stream)
+// Built with -DVF_FUZZ -fsanitize=fuzzer: the law named by env VF_LAW is run on choice vectors decoded from the fuzzer's bytes
+// (8 bytes per choice, little endian). A failing case is written as an ordinary .case file (env VF_FAILFILE) and the process
+// aborts so that libFuzzer stops; statistics go to env VF_STATS at exit in the same JSON format as the rapidcheck front end.
+namespace vf {
+struct FuzzState { const Law* law = nullptr; Stats st; std::string statsPath, failFile; double t0 = 0; };
+inline FuzzState& FS() { static FuzzState f; return f; }
+inline void fuzzAtExit() { FuzzState& f = FS(); if (f.law && !f.statsPath.empty()) writeStats(f.statsPath, *f.law, f.st, false, "", "", false, nowS() - f.t0); }
+inline int fuzzInit() {
+  FuzzState& f = FS(); const char* ln = getenv("VF_LAW");
+  for (auto& l : laws()) if (ln && l.name == ln) f.law = &l;
+  if (!f.law) { fprintf(stderr, "VF_LAW must name a law\n"); exit(4); }
+  G().law = f.law;
+  if (const char* k = getenv("VF_KNOWN")) { std::istringstream is(k); std::string t; while (std::getline(is, t, ',')) if (!t.empty()) G().known.insert(t); }
+  if (const char* p = getenv("VF_STATS")) f.statsPath = p;
+  if (const char* p = getenv("VF_FAILFILE")) f.failFile = p;
+  f.st.ntCap = 100000; f.t0 = nowS();
+  atexit(fuzzAtExit);
+  return 0;
+}
+inline int fuzzOne(const uint8_t* data, size_t size) {
+  FuzzState& f = FS();
+  std::vector<uint64_t> ch((size + 7) / 8, 0);
+  if (size) memcpy(ch.data(), data, size);
+  VecSrc s(ch); Verdict v = runCase(*f.law, s);
+  f.st.add(v);
+  if (!v.ok && !v.skipped) {
+    if (!f.failFile.empty()) { std::ofstream o(f.failFile); o << caseText(f.law->name, ch, v.used ? v.used : ch.size(), v.desc, v.msg); }
+    fprintf(stderr, "VF-FUZZ-LAW-FAILURE %s: %s\n", f.law->name.c_str(), v.msg.c_str());
+    fuzzAtExit(); f.law = nullptr;
+    abort();
+  }
+  return 0;
+}
+}  // namespace vf
+
+#ifdef VF_FUZZ
+#define VF_MAIN(propertyId) \
+  extern "C" int LLVMFuzzerInitialize(int*, char***) { return ::vf::fuzzInit(); } \
+  extern "C" int LLVMFuzzerTestOneInput(const uint8_t* d, size_t n) { return ::vf::fuzzOne(d, n); }
+#else
 #define VF_MAIN(propertyId) \
   int main(int argc, char** argv) { return ::vf::harnessMain(argc, argv, propertyId); }
+#endif
